@@ -272,6 +272,8 @@ class CompatSpec(Spec):
             fp = r.doctest.failed_part
             last = fp.exec_lines[-1] if hasattr(fp, 'exec_lines') and fp.exec_lines else ''
             kind = failing_kind(events, fp)
+            if r.exc_type == 'SyntaxError' and '__future__' in str(r.exc) and any(e[0] == 'future_after' for e in events):
+                kind = 'future_after'      # the part is compiled as one unit: the error belongs to the import, wherever it stands
             if r.exc_type == 'GotWantException' and re.match(r'^P\(\d+\) or 7$', last):
                 sig = 'compat:fails:example-prints-and-echoes-a-value'
             elif r.exc_type == 'GotWantException' and re.match(r'^T\(\d+, 5\); y = 2$', last):
